@@ -29,6 +29,10 @@
 //!            parse_arguments for `-c foo.c -o foo.o -fsanitize-blacklist=<name>...` and real generate_hash_key with the
 //!            step's client environment, on a storage that records the preprocessor-cache key it is asked for; the extra
 //!            files are (re)written with exactly the given contents and mtime before each step
+//!   reader   case `( (label..) ( (mode (#piece ..)) ... ) )`  -> `( #digest | err ... )`: the REAL Digest of a source that
+//!            delivers the bytes in these pieces: mode `pieces` = Digest::reader_sync on a Read that returns one piece per
+//!            call, `macros` = Digest::reader_sync_time_macros on the same, `fifo` = Digest::reader_sync on a real FIFO
+//!            written piece by piece (short reads), `file` = Digest::file on a regular file
 //!   hashpre  case `( item ... )`                -> `( #key|none ... )`  item = none | ( piece ... ),
 //!                                                   piece = #literal-bytes | ( piece ... )  (= util::hex(BLAKE3(the inner pieces)))
 //!            (this leg turns the MODEL's pre-image into a key: BLAKE3 + `util::hex`, flushing after every line so
@@ -530,6 +534,83 @@ fn leg_flow() {
     });
 }
 
+struct PieceReader {
+    pieces: Vec<Vec<u8>>,
+    at: usize,
+    off: usize,
+}
+impl std::io::Read for PieceReader {
+    fn read(&mut self, buf: &mut [u8]) -> std::io::Result<usize> {
+        if self.at >= self.pieces.len() {
+            return Ok(0);
+        }
+        let p = &self.pieces[self.at];
+        let n = (p.len() - self.off).min(buf.len());
+        buf[..n].copy_from_slice(&p[self.off..self.off + n]);
+        self.off += n;
+        if self.off >= p.len() {
+            self.at += 1;
+            self.off = 0;
+        }
+        Ok(n)
+    }
+}
+
+fn reader_member(rt: &tokio::runtime::Runtime, dir: &Path, n: usize, m: &Sx) -> Sx {
+    let pieces: Vec<Vec<u8>> = m.arg(1).list().iter().map(|p| p.bytes().to_vec()).collect();
+    let mode = m.arg(0).str();
+    let r: anyhow::Result<String> = match mode.as_str() {
+        "pieces" => Digest::reader_sync(PieceReader { pieces, at: 0, off: 0 }),
+        "macros" => Digest::reader_sync_time_macros(PieceReader { pieces, at: 0, off: 0 }).map(|x| x.0),
+        "file" => {
+            let p = dir.join(format!("f{}", n));
+            std::fs::write(&p, pieces.concat()).map_err(anyhow::Error::from).and_then(|_| rt.block_on(Digest::file(&p, rt.handle())))
+        }
+        "fifo" => {
+            let p = dir.join(format!("fifo{}", n));
+            let c = std::ffi::CString::new(p.as_os_str().as_bytes()).unwrap();
+            if unsafe { libc::mkfifo(c.as_ptr(), 0o600) } != 0 {
+                return Sx::sym("err");
+            }
+            let wp = p.clone();
+            let w = std::thread::spawn(move || {
+                if let Ok(mut f) = std::fs::OpenOptions::new().write(true).open(&wp) {
+                    for piece in pieces {
+                        let _ = f.write_all(&piece);
+                        let _ = f.flush();
+                        std::thread::sleep(std::time::Duration::from_millis(25));
+                    }
+                }
+            });
+            let r = std::fs::File::open(&p).map_err(anyhow::Error::from).and_then(Digest::reader_sync);
+            let _ = w.join();
+            r
+        }
+        _ => return Sx::sym("bad_mode"),
+    };
+    match r {
+        Ok(d) => Sx::B(d.into_bytes()),
+        Err(_) => Sx::sym("err"),
+    }
+}
+
+fn leg_reader() {
+    let rt = tokio::runtime::Builder::new_current_thread().enable_all().build().unwrap();
+    let td = tempfile::Builder::new().prefix("vh-c02-drv-").tempdir_in("/dev/shm").unwrap();
+    let dir = td.path().to_path_buf();
+    let mut n = 0usize;
+    vh::run_lines(|c| {
+        Sx::L(c.arg(1)
+            .list()
+            .iter()
+            .map(|m| {
+                n += 1;
+                vh::catch(|| reader_member(&rt, &dir, n, m)).unwrap_or_else(|_| Sx::sym("panic"))
+            })
+            .collect())
+    });
+}
+
 fn leg_driver() {
     let rt = tokio::runtime::Builder::new_current_thread().enable_all().build().unwrap();
     let td = tempfile::Builder::new().prefix("vh-c02-drv-").tempdir_in("/dev/shm").unwrap();
@@ -593,6 +674,7 @@ fn main() {
         "ppkey" => vh::run_lines(|c| Sx::L(c.arg(1).list().iter().map(ppkey_of).collect())),
         "driver" => leg_driver(),
         "flow" => leg_flow(),
+        "reader" => leg_reader(),
         "ppkey-root" => {
             let ok = enter_private_root();
             vh::run_lines(|c| {
